@@ -30,7 +30,7 @@ func statusErrFuncs(r *Run) []*ssa.Function {
 		if n < 2 {
 			continue
 		}
-		if b, ok := res.At(n-2).Type().Underlying().(*types.Basic); !ok || b.Kind() != types.Int {
+		if b, ok := res.At(n - 2).Type().Underlying().(*types.Basic); !ok || b.Kind() != types.Int {
 			continue
 		}
 		if !types.Identical(res.At(n-1).Type(), types.Universe.Lookup("error").Type()) {
@@ -293,7 +293,10 @@ func runC08(r *Run) {
 	}
 	if fn := r.Fn("trillian/ctfe.checkAuditPath"); fn != nil {
 		r.FailEdge(fn, "checkAuditPath", EdgeSpec{Name: "wrong-size", Atom: ordAtomR("len(*)", "32"), Bad: "<,>",
-			Want: func(r *Run, ret *ssa.Return) (bool, string) { d := r.D.D(ret.Results[0]); return d == "false", "returns " + d }})
+			Want: func(r *Run, ret *ssa.Return) (bool, string) {
+				d := r.D.D(ret.Results[0])
+				return d == "false", "returns " + d
+			}})
 		// and true is only returned when no element failed: the "true" return exists
 		okTrue := false
 		for _, ret := range Returns(fn) {
